@@ -210,6 +210,17 @@ func ZvC03_S1_Convert() {
 		}
 		vrt.Assert(none, "C03/Convert/peek-uses-new-comparator")
 	}
+	// ... also when the heap was too small for Convert to have anything to reorder: elements
+	// pushed afterwards are ordered by the NEW comparator
+	// (for n >= 2 the Peek above already shows which comparator is installed)
+	if n <= 1 {
+		x, y := vrt.Int(), vrt.Int()
+		h.Push(x)
+		h.Push(y)
+		vrt.Assert(zvIsHeap(h.data, c2), "C03/Convert/later-pushes-ordered-by-new-comparator")
+		top := h.Peek()
+		vrt.Assert(vrt.And(!c2(x, top), !c2(y, top)), "C03/Convert/later-peek-uses-new-comparator")
+	}
 }
 
 func ZvC03_S1_FromSlice() {
